@@ -19,7 +19,7 @@ git -C /repo worktree add -q --detach "$S/repo" HEAD || exit 2
 if ! git -C "$S/repo" apply "$D/patch.diff" 2>/dev/null && ! git -C "$S/repo" apply -3 "$D/patch.diff"; then echo "$ID: patch does not apply"; git -C /repo worktree remove --force "$S/repo"; exit 2; fi
 rsync -a --delete --exclude target --exclude .git --exclude scratch --exclude replays --exclude seeded --exclude benign "$V/" "$S/verif/"
 sed -i "s#path = \"/repo\"#path = \"$S/repo\"#" "$S/verif/harness/Cargo.toml" "$S/verif/harness-sched/Cargo.toml"
-mkdir -p "$S/verif/scratch"
+rm -rf "$S/verif/replays"; mkdir -p "$S/verif/scratch"
 alarms=""; ran=""
 for c in $CHECKS; do
   out="$(VH_REPO="$S/repo" "$S/verif/check" "$c" --tier "$TIER" 2>&1)"; rc=$?
